@@ -33,6 +33,7 @@ import numpy as np
 from harness.core import Check, tier_seed, assert_repo, main_guard
 from harness.tlc import run_tlc, scratch_dir, TLCError
 from harness import ensemble_support as S
+from harness import c09_sampler as C9S     # samplers + Searcher (built on the ensembles): Sampler.tla / Searcher.tla
 
 INF = 1000000
 NONE = -1
@@ -876,6 +877,8 @@ def real_runs(ck, a, count, corrupt=False):
 # =========================================================================================
 def explore(ck, a, cache=None, light=False, corrupt=None):
     thorough = a.tier == "thorough"
+    if not light:
+        C9S.prefetch(a)                        # its TLC jobs run in the background meanwhile
     res = cache if cache else run_jobs(a)
     if not light:
         design(ck, res["design"])
@@ -897,6 +900,9 @@ def explore(ck, a, cache=None, light=False, corrupt=None):
         "ties between members are resolved as the specification transcribes __update_bestSolver (last minimal member)",
         "process-based maps (pathos/multiprocess) are not installed; thread pools and re-ordering maps stand in",
         "settings changed on the ensemble AFTER its members exist are outside the runs (they are not propagated)"]
+    if not light:
+        C9S.sampler_part(ck, a)
+        C9S.searcher_part(ck, a)
 
 
 # =========================================================================================
@@ -1001,6 +1007,7 @@ def selftest(a):
                 undo()
     for what in ("behaviour", "grid", "obs", "trace"):
         missed += 0 if attempt("corrupted expected value from TLC / recorded field (%s)" % what, corrupt=what) else 1
+    missed += C9S.selftest_sampler(a2)
     return 1 if missed else 0
 
 
